@@ -8,6 +8,7 @@ mod sync;
 mod pr;
 mod rg;
 mod fleet;
+mod fm;
 mod wire;
 mod bv;
 mod rt;
@@ -36,6 +37,7 @@ fn main() {
         "rg-hist" => rg::hist(&a),
         "fleet-scripts" => fleet::scripts(&a),
         "fleet-broadcast" => fleet::broadcast(&a),
+        "fleet-members" => fm::replay(&a),
         "wire-exec" => wire::exec(&a),
         "wire-child" => wire::child(&a),
         "wire-c01" => wire::c01(&a),
@@ -45,6 +47,7 @@ fn main() {
         "rt-random" => rt::random(&a),
         "mux" => mux::run(&a),
         "mux-replay" => mux::replay(&a),
+        "mux-stray" => mux::stray(&a),
         "srv-c03" => srv::c03(&a),
         "srv-c02-timeouts" => srv::c02_timeouts(&a),
         "ws-c16" => wsx::c16(&a),
